@@ -4,6 +4,7 @@ import PT.Props.C07
 import PT.Lemmas.Reach
 import PT.Props.C02
 import PT.Props.C09
+import PT.Props.C10
 /-!
 # C18 — Keys are identified by network part; stored representation is last inserted
 
@@ -36,6 +37,14 @@ theorem cover_host_bits_irrelevant {m : PMap w V} (h : m.TreeWF) {q q' : Pfx w} 
     intro e _
     rw [Bool.eq_iff_iff, contains_iff, contains_iff, hq]
   exact ⟨hc, by rw [C09.getSpm_eq_cover_head, C09.getSpm_eq_cover_head, hc]⟩
+
+/-- … and as selector of `children` -/
+theorem children_host_bits_irrelevant {m : PMap w V} (h : m.TreeWF) {q q' : Pfx w} (hq : q.net = q'.net) :
+    m.childrenIter q = m.childrenIter q' := by
+  rw [C10.children_eq h, C10.children_eq h]
+  apply List.filter_congr
+  intro e _
+  rw [Bool.eq_iff_iff, contains_iff, contains_iff, hq]
 
 /-- … for longest-prefix match and cover … -/
 theorem lpm_host_bits_irrelevant {m : PMap w V} (h : m.TreeWF) {q q' : Pfx w} (hq : q.net = q'.net) :
